@@ -6,9 +6,10 @@ THEOREMS = {
         "Dawgs.C08.Props.context_protocol_as_modelled", "Dawgs.C08.Props.table_shape", "Dawgs.C08.Props.table_balanced",
         "Dawgs.C08.Props.filters_inert", "Dawgs.C08.Props.listener_no_panic", "Dawgs.C08.Props.listener_no_panic_derivable",
         "Dawgs.C08.Props.listener_no_panic_recovered_partial", "Dawgs.C08.Props.listener_linear",
-        "Dawgs.C08.Props.never_nilnil_witness", "Dawgs.C08.Props.never_nilnil_refuted", "Dawgs.C08.Props.never_nilnil_partial",
-        "Dawgs.C08.Props.empty_rejected", "Dawgs.C08.Props.empty_guard_present", "Dawgs.C08.Props.c08_full_refuted",
-        "Dawgs.C08.Props.c08_partial",
+        "Dawgs.C08.Props.never_nilnil_partial", "Dawgs.C08.Props.root_chain_ok", "Dawgs.C08.Props.never_nilnil",
+        "Dawgs.C08.Props.never_nilnil_witness_old", "Dawgs.C08.Props.never_nilnil_refuted_old", "Dawgs.C08.Props.call_now_rejected",
+        "Dawgs.C08.Props.empty_rejected", "Dawgs.C08.Props.empty_guard_present", "Dawgs.C08.Props.c08_full",
+        "Dawgs.C08.Props.c08_full_refuted_old",
     ],
 }
 
@@ -133,14 +134,15 @@ SPEC = {
             "grammar's keywords + 10 size-doubling sweeps (time/alloc exponent fitted; timing never compared with the model); every input parsed under "
             "recover with NewContext() and DefaultCypherContext() and once more with a probe filter recording the visitor stack at every rule entry; "
             "non-trivial = a parse tree was built and the input had a syntax error, an unsupported rule, or was accepted; distinct = distinct inputs",
-    "expected_branches": ["n.ok", "n.err", "n.nilnil", "n.partial", "d.ok", "d.err", "invalid_utf8", "blank_inputs", "scale_ok"],
+    "expected_branches": ["n.ok", "n.err", "d.ok", "d.err", "invalid_utf8", "blank_inputs", "scale_ok"],
     "trusted_base": ["ANTLR 4 runtime + generated lexer/parser (termination and cost of ALL(*) prediction are measured, not proved)",
                      "tools/extract/goext mode visitors (push/pop/guard table, Context protocol source) and grammar.py",
                      "antlr.ParseTreeWalker calls EnterEveryRule / children / ExitEveryRule in that order (ANTLR)",
                      "reflection read of Context.visitorStack by the probe filter (harness/c08.go)"],
     "assumptions": ["time and memory: measured by size doubling with generous thresholds (alloc exponent > 3.2 or last doubling x40 above 2 s); polynomial bound is NOT proved",
                     "panics inside visitor method bodies that depend on visitor fields (nil dereference, assertions on model values) are not in the Lean model; searched by the fuzz corpus only",
-                    "never_nilnil is refuted for the current code (F7); proved under the chain condition `reaches`"],
+                    "never_nilnil is proved for the repaired listener (unsupported-rule errors for oC_StandaloneCall/oC_LoadCSV/oC_InQueryCall, hooks/C07-fix.patch) relative to the "
+                    "filter/unsupported-rule error model; the refutation is kept as a theorem about the older table (never_nilnil_refuted_old)"],
     "explanation": "Lean: for every rule-labelled tree (any shape, error nodes included) the listener protocol (Context.Enter/Exit, depth counters, type-asserted pops) "
                    "never panics and restores the stack, provided every visitor method pair is balanced — a decidable condition on the table extracted from "
                    "cypher/frontend/*.go, closed by decide +kernel; listener work <= (filters+4) per node; blank input rejected; (nil,nil) refuted by the CALL witness. "
@@ -157,8 +159,10 @@ MANIFEST = {
             "Go sources) ends without a panic and with the visitor stack back at [QueryVisitor/0]: depth is 0 at every pop, every type assertion on a popped visitor holds, the stack "
             "never underflows. The proof is generic in the table and needs one decidable condition (every EnterOC_r/ExitOC_r pair is either inert or push W under g / pop W under g), "
             "re-checked by the kernel on the regenerated table, so a visitor whose Exit forgets the pop, asserts another type or tests another condition breaks lake build. "
-            "listener_linear: at most (#filters+4) callbacks/stack operations per tree node. empty_rejected: Go-whitespace-only input returns an error. never_nilnil is REFUTED for the "
-            "current code by the parse tree of `CALL foo.bar()` (known finding) and proved under the chain condition `reaches`. The tie parses ~10^3 (quick) hostile inputs under recover "
+            "listener_linear: at most (#filters+4) callbacks/stack operations per tree node. empty_rejected: Go-whitespace-only input returns an error. never_nilnil: every grammatical, "
+            "complete, error-free tree of oC_Cypher yields a non-nil model — proved from a kernel-checked chain certificate on the regenerated tables (the only error-free path from the "
+            "root is Cypher/Statement/Query/RegularQuery, on which QueryVisitor assigns the result); for the table before the repair it is refuted by the parse tree of `CALL foo.bar()` "
+            "(theorem never_nilnil_refuted_old; finding now fixed). The tie parses ~10^3 (quick) hostile inputs under recover "
             "with both contexts and compares class, nil-ness, error multisets and a hash of the visitor stack at every rule entry with the model run on the real ANTLR tree.",
     "note": "Partial: polynomial time/memory is measured (size doubling, fitted exponent in the evidence), not proved — ANTLR prediction is trusted. Panics that depend on visitor "
             "fields rather than on the stack protocol are outside the model and covered by search only.",
